@@ -60,7 +60,10 @@ def make(case):
     smd = [{'site': 'x_' + i} for i in sids] if case.get('md', True) else None
     cp = (lambda x: None if x is None else [dict(e) for e in x])
     lay = case['layout']
-    if lay in ('csr', 'csc'):
+    if case.get('idarr'):
+        # the caller hands the ids over as numpy arrays of Python objects (what pandas' index.values gives)
+        t = Table(D, np.array(oids, dtype=object), np.array(sids, dtype=object), cp(omd), cp(smd), type='OTU table')
+    elif lay in ('csr', 'csc'):
         t = Table(D, oids, sids, cp(omd), cp(smd), type='OTU table')
         if lay == 'csc':
             t.data(sids[0], 'sample')
@@ -82,6 +85,8 @@ def cases(tier, seed):
         for mask in masks:
             for lay in LAYOUTS:
                 out.append({'shape': list(sh), 'mask': mask, 'layout': lay, 'md': True})
+    for sh, mask in (((2, 3), 0b101101), ((3, 3), 0b110011101), ((3, 2), 0b111111)):
+        out.append({'shape': list(sh), 'mask': mask, 'layout': 'csr', 'md': True, 'idarr': True})
     # an axis without any id (the other axis keeps its ids and metadata)
     for sh in ((0, 2), (2, 0), (0, 3), (0, 0)):
         out.append({'shape': list(sh), 'mask': 0, 'layout': 'csr', 'md': True})
@@ -103,7 +108,8 @@ def check(case, acc, tmp):
     from biom.exception import DisjointIDError
     t0, m0 = make(case)
     if case['mask']:
-        acc.nontrivial.add(h64((tuple(case['shape']), case['mask'], case['layout'], case['md'], case.get('same_ids'))))
+        acc.nontrivial.add(h64((tuple(case['shape']), case['mask'], case['layout'], case['md'], case.get('same_ids'),
+                                case.get('idarr'))))
     acc.count('layout:' + O.layout_class(t0))
     P.state(acc, 'src', O.concrete_key(t0))
     start = m0.content()
